@@ -241,7 +241,14 @@ func (eh *ExtendedHeader) UnmarshalJSON(data []byte) error {
 	// alias the type to avoid going into recursion loop
 	// because tmjson.Unmarshal invokes custom json unmarshalling
 	type Alias ExtendedHeader
-	return tmjson.Unmarshal(data, (*Alias)(eh))
+	// decode into a fresh value: decoding into eh itself would reuse the parts eh already
+	// points to, together with whatever they memoised (e.g. the hash of a previous DAH)
+	out := new(Alias)
+	if err := tmjson.Unmarshal(data, out); err != nil {
+		return err
+	}
+	*eh = ExtendedHeader(*out)
+	return nil
 }
 
 var _ libhead.Header[*ExtendedHeader] = &ExtendedHeader{}
